@@ -65,6 +65,7 @@ def run(ctx, rep):
         ix.func(q)
     ix2, own = run_engine(ctx)
     rep.assume("no setattr/__dict__/exec tricks on input objects beyond the sites enumerated; numpy, sly and the standard library do not retain or mutate circuit objects passed to them")
+    rep.assume("the ideal_unitary functions of gate definitions (user-supplied) are pure functions of their numeric arguments")
     rep.assume("generator-style visitors (yield / yield from) are treated like returns of a fresh container")
     rep.assume("call edges: resolved calls, visitor dispatch and Builder dispatch; the backend is the default one (pyGSTi back ends, IPC and the CLI are outside the model); every parameter of an entry point is INPUT")
     rep.analysed["entries"] = ENTRIES
